@@ -4,7 +4,7 @@ import sys
 from _env import M, run, workload
 from sim.checks import c16
 
-iso3, preset = (sys.argv[1], sys.argv[2]) if len(sys.argv) > 2 else ("SLV", "argentina:argentina_net_nuclear_resilient_more_area")
+iso3, preset = (sys.argv[1], sys.argv[2]) if len(sys.argv) > 2 else ("SLV", "baseline_USA:baseline_model_by_country~scenario=all_resilient_foods_and_more_area")
 c16.grid()
 opts = c16._GRID["presets"][preset]
 try:
